@@ -1,11 +1,92 @@
 package main
 
-// Replay of counter-models against the real code (go test -overlay, in-package test).
+// Replay of failed obligations against the real code: a Go test is injected in-package with
+// `go test -overlay` (nothing is written under /repo). Two sources of replay tests:
+//  * recipes (/verif/findings/recipes.json): hand-written demonstrations keyed by obligation name,
+//    for findings and for guard obligations whose counter-model is a path, not an input;
+//  * generated tests for functions whose parameters are plain data (integers, booleans, strings,
+//    byte slices/arrays): arguments are taken literally from the solver's model.
+
+import (
+	"encoding/json"
+	"fmt"
+	"os"
+	"os/exec"
+	"path/filepath"
+	"strings"
+	"time"
+)
+
+type recipe struct {
+	Pkg  string `json:"pkg"`  // package pattern relative to the repository, e.g. ./http
+	Test string `json:"test"` // test function name
+	File string `json:"file"` // test source, relative to /verif
+	As   string `json:"as"`   // file name to inject (default zz_verif_replay_test.go)
+}
+
+func loadRecipes() map[string]recipe {
+	out := map[string]recipe{}
+	data, err := os.ReadFile(filepath.Join(verifDir, "findings", "recipes.json"))
+	if err != nil {
+		return out
+	}
+	_ = json.Unmarshal(data, &out)
+	return out
+}
+
+// runOverlayTest runs one injected in-package test; returns (failed, output).
+func runOverlayTest(pkg, testName, srcFile, as string) (bool, string) {
+	if as == "" {
+		as = "zz_verif_replay_test.go"
+	}
+	dir, err := os.MkdirTemp("", "govc-replay-")
+	if err != nil {
+		return false, err.Error()
+	}
+	defer os.RemoveAll(dir)
+	target := filepath.Join(repoDir, strings.TrimPrefix(pkg, "./"), as)
+	ov := map[string]map[string]string{"Replace": {target: srcFile}}
+	data, _ := json.Marshal(ov)
+	ovPath := filepath.Join(dir, "overlay.json")
+	os.WriteFile(ovPath, data, 0o644)
+	cmd := exec.Command("go", "test", "-overlay", ovPath, "-vet=off", "-count=1", "-timeout", "120s", "-run", "^"+testName+"$", pkg)
+	cmd.Dir = repoDir
+	cmd.Env = append(os.Environ(), "GOFLAGS=-mod=mod", "GOPROXY=off", "GOSUMDB=off", "GOTOOLCHAIN=local")
+	done := make(chan struct{})
+	var out []byte
+	go func() {
+		out, err = cmd.CombinedOutput()
+		close(done)
+	}()
+	select {
+	case <-done:
+	case <-time.After(300 * time.Second):
+		if cmd.Process != nil {
+			cmd.Process.Kill()
+		}
+		return false, "replay timed out"
+	}
+	s := string(out)
+	failed := err != nil && (strings.Contains(s, "--- FAIL") || strings.Contains(s, "panic:"))
+	return failed, s
+}
 
 func replayObligation(prop string, r *oblResult, path string) bool {
-	return false
+	recipes := loadRecipes()
+	if rc, ok := recipes[r.O.Name]; ok {
+		failed, out := runOverlayTest(rc.Pkg, rc.Test, filepath.Join(verifDir, rc.File), rc.As)
+		f, _ := os.OpenFile(path, os.O_APPEND|os.O_WRONLY, 0o644)
+		if f != nil {
+			fmt.Fprintf(f, "\n--- replay on the real code: go test -overlay (%s in %s, source %s) ---\nreproduced: %v\n%s\n", rc.Test, rc.Pkg, rc.File, failed, out)
+			f.Close()
+		}
+		return failed
+	}
+	return replayGenerated(prop, r, path)
 }
 
 func runReplayTest(goFile string) (bool, string) {
 	return false, ""
 }
+
+// replayGenerated: see replaygen2.go (model-driven replay for plain-data functions).
